@@ -175,10 +175,116 @@ pub fn check_fault_case(case: &FaultCase, info: &mut CaseInfo) -> Result<(), Str
 	Ok(())
 }
 
+/// Keys generated by rcgen itself (never saved or reloaded) sign all three artefact kinds.
+#[derive(Clone, Debug, Serialize, Deserialize, PartialEq, Eq, Hash)]
+pub struct GenKeyCase {
+	pub alg_idx: u8,
+	/// aws-lc-rs only: 0 = generate_for, 1..=3 = generate_rsa_for with 2048 / 3072 / 4096 bits
+	pub rsa_size: u8,
+	pub dn: DnSpec,
+}
+
+#[cfg(feature = "crypto")]
+pub fn generate_key(alg: &'static rcgen::SignatureAlgorithm, rsa_size: u8) -> Result<rcgen::KeyPair, rcgen::Error> {
+	#[cfg(feature = "aws_be")]
+	{
+		let size = match rsa_size % 4 {
+			1 => Some(rcgen::RsaKeySize::_2048),
+			2 => Some(rcgen::RsaKeySize::_3072),
+			3 => Some(rcgen::RsaKeySize::_4096),
+			_ => None,
+		};
+		if let Some(size) = size {
+			return match rcgen::KeyPair::generate_rsa_for(alg, size) {
+				Err(rcgen::Error::KeyGenerationUnavailable) => rcgen::KeyPair::generate_for(alg),
+				r => r,
+			};
+		}
+	}
+	let _ = rsa_size;
+	rcgen::KeyPair::generate_for(alg)
+}
+
+#[cfg(feature = "crypto")]
+pub fn check_gen_key(c: &GenKeyCase, info: &mut CaseInfo) -> Result<(), String> {
+	let algos = crate::props::c11::algos();
+	let (name, alg) = algos[c.alg_idx as usize % algos.len()];
+	let key = match generate_key(alg, c.rsa_size) {
+		Ok(k) => k,
+		Err(rcgen::Error::KeyGenerationUnavailable) => {
+			info.class("generation-unavailable");
+			return Ok(());
+		},
+		Err(e) => return Err(format!("generating a {name} key failed: {e}")),
+	};
+	info.nontrivial = true;
+	info.class(format!("generated:{name}"));
+	if key.algorithm() != alg {
+		return Err(format!("a key generated for {name} reports {:?}", key.algorithm()));
+	}
+	// the public key as OpenSSL derives it from the exported private key (for Ed25519 from the seed)
+	let spki = crate::props::c18::public_of_private(&key.serialize_der()).map_err(|e| format!("exported generated key: {e}"))?;
+	if spki != key.public_key_der() {
+		return Err("the exported private key of a generated key does not belong to its public key".into());
+	}
+	let (fam, digest) = crate::props::c06::classify_alg(alg).ok_or("unknown algorithm")?;
+	let as_spec = KeySpec {
+		alg: fam,
+		idx: 0,
+		rsa_hash: match name {
+			"RSA_SHA384" => RsaHash::Sha384,
+			"RSA_SHA512" => RsaHash::Sha512,
+			_ => RsaHash::Sha256,
+		},
+		remote: false,
+	};
+	let verify = |what: &str, inner: Option<&AlgId>, outer: &AlgId, signed: &[u8], sig: &[u8]| -> Result<(), String> {
+		check_alg_ids(&as_spec, inner, outer).map_err(|e| format!("{what}: {e}"))?;
+		match keys::openssl_verify(&spki, digest.map(|d| d.md()), signed, sig)? {
+			true => Ok(()),
+			false => Err(format!("{what}: OpenSSL rejects the signature of a freshly generated {name} key under its public key")),
+		}
+	};
+	let mut spec = CertSpec::minimal();
+	spec.dn = c.dn.clone();
+	spec.is_ca = IsCaSpec::CaUnconstrained;
+	let cert = mk::cert_params(&spec)?.self_signed(&key).map_err(|e| format!("self_signed: {e}"))?;
+	let (d, _) = decode_cert(cert.der())?;
+	verify("certificate", Some(&d.inner_alg), &d.outer_alg, &d.tbs_raw, &d.signature)?;
+	let mut cs = CertSpec::minimal();
+	cs.dn = c.dn.clone();
+	cs.serial = None;
+	let csr = mk::cert_params(&cs)?.serialize_request(&key).map_err(|e| format!("serialize_request: {e}"))?;
+	let (r, _) = decode_csr(csr.der())?;
+	verify("CSR", None, &r.outer_alg, &r.cri_raw, &r.signature)?;
+	let crl = CrlSpec {
+		this_update: TimeSpec { unix: 1_600_000_000, nanos: 0, offset: 0 },
+		next_update: TimeSpec { unix: 1_700_000_000, nanos: 0, offset: 0 },
+		crl_number: Hex(vec![1]),
+		idp: None,
+		revoked: vec![],
+		kid: KidSpec::Sha256,
+	};
+	let crl = mk::crl_params(&crl)?.signed_by(&cert, &key).map_err(|e| format!("CRL signed_by: {e}"))?;
+	let (l, _) = decode_crl(crl.der())?;
+	verify("CRL", Some(&l.inner_alg), &l.outer_alg, &l.tbs_raw, &l.signature)
+}
+
+#[cfg(not(feature = "crypto"))]
+pub fn check_gen_key(_: &GenKeyCase, _: &mut CaseInfo) -> Result<(), String> {
+	Ok(())
+}
+
+fn gen_key_case() -> BoxedStrategy<GenKeyCase> {
+	(any::<u8>(), prop_oneof![5 => Just(0u8), 4 => Just(1u8), 1 => Just(2u8), 1 => Just(3u8)], gen::dn(3, true, false))
+		.prop_map(|(alg_idx, rsa_size, dn)| GenKeyCase { alg_idx, rsa_size, dn })
+		.boxed()
+}
+
 pub fn def() -> PropertyDef {
 	PropertyDef {
 		id: "C01",
-		rule: "Generated certificates (self-/issuer-signed, three public-key sources), CSRs (with attributes) and CRLs for every key algorithm of this back end, local and remote; the harness decoder cuts out the exact signed bytes; OpenSSL verifies the signature over them under the signer's key; inner and outer AlgorithmIdentifier must be byte-identical and equal the RFC table. Fault sequences: 1..6 generation calls share a remote signer that fails on a generated subset of its sign calls. Non-trivial = optional fields present, or key not local P-256; fault case non-trivial = at least one failing and one succeeding call.",
+		rule: "Generated certificates (self-/issuer-signed, three public-key sources), CSRs (with attributes) and CRLs for every key algorithm of this back end, local and remote; the harness decoder cuts out the exact signed bytes; OpenSSL verifies the signature over them under the signer's key; inner and outer AlgorithmIdentifier must be byte-identical and equal the RFC table. Keys generated by rcgen itself (generate_for for every algorithm; under aws-lc-rs also generate_rsa_for with 2048/3072/4096 bits) sign a certificate, a CSR and a CRL without ever being saved or reloaded; the public key is the one OpenSSL derives from the exported private key. Fault sequences: 1..6 generation calls share a remote signer that fails on a generated subset of its sign calls. Non-trivial = optional fields present, or key not local P-256; fault case non-trivial = at least one failing and one succeeding call.",
 		assumptions: vec![
 			"OpenSSL's EVP signature verification and its SPKI encoding of the fixture keys",
 			"the harness DER reader finds the byte range of the signed part correctly (unit-tested, cross-checked against OpenSSL by C12/C03 which verify whole certificates)",
@@ -188,6 +294,7 @@ pub fn def() -> PropertyDef {
 			prop_sub("csr", 16_000, 150_000, || csr_case(false), check_csr_case),
 			prop_sub("crl", 16_000, 150_000, || crl_case(false, false), check_crl_case),
 			prop_sub("fault", 12_000, 100_000, fault_case, check_fault_case),
+			prop_sub("generated-keys", 640, 6_000, gen_key_case, check_gen_key),
 		],
 	}
 }
